@@ -114,6 +114,37 @@ func runC01(c *Collector, r *Rng, thorough bool) {
 			haveAlg := r.Chance(2, 3) || len(ext) == 0
 			rep := map[string]any{"alg": k.alg.String(), "key": k.name, "ext": hx(trimTo(ext, 40)), "payload_len": len(payload)}
 
+			// --- scripted signer: Sign helper output, its decoding and verification, compared with the model ---
+			{
+				sg := &spySigner{alg: k.alg, kind: SOk, sig: genSigBytes(r)}
+				hh := genGoHeaders(r, cfg, k.alg, haveAlg, false)
+				tg := r.Bool()
+				mp, me := payload, ext
+				if len(mp) > 4096 { // boundary lengths with compressible content keep the Coq terms small
+					mp = bytes.Repeat([]byte{0xab}, len(mp))
+					me = bytes.Repeat([]byte{0xcd}, len(me))
+				}
+				op, obs, out, herr, p := execHelperSign1(tg, hh, mp, me, sg)
+				ext := me
+				if !p {
+					addCase(c, "model/helper-sign1", op, obs, herr == nil)
+					if herr == nil {
+						kind := "DSign1U"
+						if tg {
+							kind = "DSign1"
+						}
+						d := decodeCase(c, "model/decode-own-output", kind, out)
+						if d.err == nil && !d.paniced {
+							vf := &spyVerifier{alg: k.alg}
+							op, obs, _, _ := execVerify1(d.s1, ext, vf)
+							addCase(c, "model/verify-decoded", op, obs, true)
+							if len(vf.calls) == 1 && len(sg.calls) == 1 && !bytes.Equal(vf.calls[0].content, sg.calls[0]) {
+								c.Fail("C01/tbs-changed-by-roundtrip", "the bytes handed to the verifier after a wire round trip differ from the bytes that were signed", map[string]any{"op": trunc(op, 600)})
+							}
+						}
+					}
+				}
+			}
 			// --- COSE_Sign1, tagged and untagged ---
 			for _, tagged := range []bool{true, false} {
 				m := &cose.Sign1Message{Headers: genGoHeaders(r, cfg, k.alg, haveAlg, false), Payload: payload}
@@ -342,14 +373,17 @@ func runC03(c *Collector, r *Rng, thorough bool) {
 				continue
 			}
 			check := func(class string, in []byte, vext []byte, vk realKey, vf cose.Verifier) {
-				d := decodeKind(kind, in)
+				d := decodeCase(c, "decode/"+class, kind, in)
 				if d.paniced {
-					c.Fail("C03/panic", "decoder panicked", map[string]any{"data": hx(in)})
 					return
 				}
 				if d.err != nil {
-					c.Eval("undecodable/"+class, hx(in), false)
 					return
+				}
+				{ // the model's view of the same verification, with a recording verifier that accepts
+					spy := &spyVerifier{alg: vk.alg}
+					op, obs, _, _ := execVerify1(d.s1, vext, spy)
+					addCase(c, "verify-model/"+class, op, obs, true)
 				}
 				var verr error
 				if p, _ := protect(func() { verr = d.s1.Verify(vext, vf) }); p {
